@@ -20,8 +20,8 @@ import (
 
 type graphStats struct {
 	summaries, constructed, nodes, edges int
-	closureLinks, multiCallee             int
-	globalsRW                             int
+	closureLinks, multiCallee            int
+	globalsRW                            int
 }
 
 func allNodes(g *df.SummaryGraph) []df.GraphNode {
